@@ -260,8 +260,12 @@ package flamego
 //@     r.parser != nil && r.contextCreator != nil && r.regCount >= 0 &&
 //@     (forall m string :: has(r.routeTrees, m) ==> isTree(r.routeTrees[m])) &&
 //@     (forall k int :: 0 <= k && k < len(httpMethods) ==> has(r.routeTrees, httpMethods[k]) && has(r.staticRoutes, httpMethods[k]) && r.staticRoutes[httpMethods[k]] != nil) &&
-//@     (forall m string, p string :: has(r.staticRoutes, m) && has(r.staticRoutes[m], p) ==> shortcutOK(r.staticRoutes[m][p])) &&
+//@     (forall m string, p string :: has(r.staticRoutes, m) && has(r.staticRoutes[m], p) ==> r.staticRoutes[m][p] != nil) &&
+//@     (forall m string :: r.staticRoutes[m] != r.namedRoutes) &&
 //@     (forall n string :: has(r.namedRoutes, n) ==> r.namedRoutes[n] != nil)
+
+// C10: what is stored in the fast-path table
+//@ define shortcutInv(r *router) bool = forall m string, p string :: has(r.staticRoutes, m) && has(r.staticRoutes[m], p) ==> shortcutOK(r.staticRoutes[m][p])
 
 //@ func (*router).ServeHTTP
 //@   props C07 C02
@@ -588,7 +592,7 @@ package flamego
 // C08 / C09 / C10 / C11 / C12: the router
 // ---------------------------------------------------------------------------
 
-//@ define routeObjWF(x *Route) bool = x != nil && x.router != nil && x.leaves != nil && (forall m string :: has(x.leaves, m) ==> x.leaves[m] != nil)
+//@ define routeObjWF(x *Route) bool = x != nil && x.router != nil && x.leaves != nil && (forall m string :: has(x.leaves, m) ==> x.leaves[m] != nil && live(leafBase(x.leaves[m])))
 
 //@ func (*router).addRoute
 //@   props C08 C10
@@ -597,9 +601,11 @@ package flamego
 //@       route.Segment.str, route.Segment.strOnce.fired, route.Route.str, route.Route.strOnce.fired, elems(type([]string))
 //@   panics true
 //@   ensures routerWF(r) && treeWF()
+//@   ensures[C10] old(shortcutInv(r)) ==> shortcutInv(r)
 //@   ensures routeObjWF(result) && fresh(result) && result.router == r
 //@   loop 0 invariant routerWF(r) && treeWF() && (len(methods) == 0 || (len(methods) == 1 && methods[0] == method))
-//@   loop 1 invariant routerWF(r) && treeWF() && leaves != nil && fresh(leaves) && (forall m string :: has(leaves, m) ==> leaves[m] != nil)
+//@   loop 1 invariant routerWF(r) && treeWF() && leaves != nil && fresh(leaves) && (forall m string :: has(leaves, m) ==> leaves[m] != nil && live(leafBase(leaves[m])))
+//@   loop 1 invariant[C10] old(shortcutInv(r)) ==> shortcutInv(r)
 //@   loop 1 invariant ast != nil && routeWF(ast) && (method == "*" ==> methods == httpMethods) && (method != "*" ==> len(methods) == 1 && (exists k int :: 0 <= k && k < len(httpMethods) && httpMethods[k] == methods[0]))
 
 // ---------------------------------------------------------------------------
@@ -737,3 +743,43 @@ package flamego
 //@   assert before fn#0: (forall k int :: 0 <= k && k < len(r.handlers) ==> hs[k] == old(r.handlers[k])) && (forall k int :: 0 <= k && k < len(handlers) ==> hs[len(r.handlers) + k] == old(handlers[k]))
 //@   assert before fn#0: forall k int :: 0 <= k && k < len(r.handlers) ==> r.handlers[k] == old(r.handlers[k])
 //@   ensures result == r
+
+// ---------------------------------------------------------------------------
+// C09 / C10: Route.Headers   C12: Name / URLPath
+// ---------------------------------------------------------------------------
+
+//@ ghost field route.baseLeaf.method string   // the HTTP method tree the leaf was registered in
+
+//@ func (*Route).Headers
+//@   props C09 C10
+//@   requires routeObjWF(r) && routerWF(r.router) && treeWF() && (forall m string :: r.router.staticRoutes[m] != r.leaves)
+//@   modifies route.baseLeaf.headerMatcher, maps(type(map[string]route.Leaf)), route.Route.str, route.Route.strOnce.fired
+//@   panics true
+//@   ensures result == r && routerWF(r.router) && treeWF()
+//@   ensures forall m string :: has(r.leaves, m) ==> leafBase(r.leaves[m]).headerMatcher != nil && fresh(leafBase(r.leaves[m]).headerMatcher)
+//@   ensures[C10] forall m string :: has(r.leaves, m) && leafStyle(r.leaves[m]) == 1 && staticAnc(leafBase(r.leaves[m]).parent) ==> !has(r.router.staticRoutes[m], routeStr(leafBase(r.leaves[m]).route))
+//@   loop 0 invariant matches != nil && fresh(matches) && 1 <= i
+//@   loop 1 invariant routeObjWF(r) && routerWF(r.router) && treeWF() && matches != nil && fresh(matches)
+//@   loop 1 invariant forall m string :: visited(m) ==> has(r.leaves, m) && leafBase(r.leaves[m]).headerMatcher != nil && fresh(leafBase(r.leaves[m]).headerMatcher)
+//@   loop 1 invariant forall x *route.baseLeaf :: live(x) ==> x.headerMatcher == old(x.headerMatcher) || fresh(x.headerMatcher)
+//@   loop 1 invariant[C10] forall m string :: visited(m) && leafStyle(r.leaves[m]) == 1 && staticAnc(leafBase(r.leaves[m]).parent) ==> !has(r.router.staticRoutes[m], routeStr(leafBase(r.leaves[m]).route))
+//@   loop 1 invariant forall m string :: r.router.staticRoutes[m] != r.leaves
+
+//@ func (*Route).Name
+//@   props C12
+//@   requires routeObjWF(r) && routerWF(r.router)
+//@   modifies r.router.namedRoutes[*]
+//@   panics name == "" || has(r.router.namedRoutes, name)
+//@   ensures name != "" && !old(has(r.router.namedRoutes, name))
+//@   ensures routerWF(r.router)
+//@   ensures forall n string :: n != name ==> has(r.router.namedRoutes, n) == old(has(r.router.namedRoutes, n)) && r.router.namedRoutes[n] == old(r.router.namedRoutes[n])
+
+// pairs -> map (a later pair wins); "withOptional" is extracted and removed; unknown names panic
+//@ func (*router).URLPath
+//@   props C12
+//@   requires routerWF(r) && treeWF()
+//@   modifies route.Route.str
+//@   panics !has(r.namedRoutes, name)
+//@   ensures has(r.namedRoutes, name)
+//@   loop 0 invariant vals != nil && fresh(vals) && 1 <= i && leaf != nil
+//@   loop 0 invariant forall k string :: has(vals, k) ==> exists j int :: 1 <= j && j < i && pairs[j - 1] == k
